@@ -117,6 +117,7 @@ package common
 //@   requires dst != nil && src != nil
 //@   atcall Write requires exactlyWhatWasRead: sameSlice(arg0.([]byte), buf[0:nr])
 //@   ensures bothClosed: closedconn(src) && closedconn(dst)
+//@   ensures relayedAll: !called("(io.WriterTo).WriteTo") && !called("(io.ReaderFrom).ReadFrom") && err == nil ==> outlen(dst) - old(outlen(dst)) == inpos(src) - old(inpos(src))
 //@   ensures relayedPrefix: !called("(io.WriterTo).WriteTo") && !called("(io.ReaderFrom).ReadFrom") ==> outlen(dst) - old(outlen(dst)) <= inpos(src) - old(inpos(src)) && (forall k int :: 0 <= k && k < outlen(dst) - old(outlen(dst)) ==> outbyte(dst, old(outlen(dst)) + k) == inbyte(src, old(inpos(src)) + k))
 //@   modifies *
 //@   loop 0 invariant relayed: outlen(dst) - old(outlen(dst)) == inpos(src) - old(inpos(src)) && err == nil
